@@ -651,6 +651,10 @@ func gatedWalk(t *testing.T, j gjob, walk []gstep, w *json.Encoder) (int, string
 			t.Fatalf("job %s: bodies did not finish after the walk was released (walk %v)", j.Name, walk)
 		}
 	case <-time.After(30 * time.Second):
+		if why == "wakeup" {
+			// already recorded as Stuck: an invocation the Broadcast should have woken sleeps for ever; its goroutine is left behind
+			return steps, why
+		}
 		t.Fatalf("job %s: goroutines did not finish after the walk was released (walk %v, diverged %q)", j.Name, walk, why)
 	}
 	return steps, why
